@@ -330,7 +330,7 @@ def keepPresent (md : List (String × PMeta)) (data : List Attrs) : List (String
 /-! ### attribute dicts → property columns (`dict_props_to_arr`) -/
 
 inductive Kind where
-  | int64 | float64 | str | roiRegular | roiVarlen | unmodelled
+  | int64 | uint64 | float64 | str | roiRegular | roiVarlen | unmodelled
 deriving Repr, DecidableEq
 
 structure Column where
@@ -351,7 +351,10 @@ def roiShape : Val → Option (Nat × Option Nat)
 def columnKind (cells : List (Option Val)) : Kind :=
   let vals := cells.filterMap id
   if vals.isEmpty then .unmodelled
-  else if vals.all isI then .int64
+  else if vals.all isI then                 -- numpy: Python ints ≥ 2^63 make the array uint64
+    (if vals.any (fun v => match v with
+      | .i n => decide (n ≥ 9223372036854775808)
+      | _ => false) then .uint64 else .int64)
   else if vals.all isNum then .float64
   else if vals.all isS then .str
   else if vals.all isRoi &&                 -- missing cells are filled with the first present polygon
